@@ -151,6 +151,9 @@ PushCore(i) ==
              /\ rq' = [rq EXCEPT ![q].st = "pushed"]
   /\ UNCHANGED <<pmin, pmax, cur, cleared, inst, vers, done, pend, model>>
 
+\* driver event: the result map handed back to request q is compared with the copy taken at return
+FrozenCore(q, same) == same /\ UNCHANGED pvars
+
 \* driver event: after waiting for the asynchronous pushes the pool is whole again
 QuiesceCore ==
   /\ free = Insts /\ transit = {}
